@@ -114,7 +114,11 @@ impl TextDocument {
     }
 }
 
-pub struct Documents(DashMap<String, TextDocument>);
+pub struct Documents(
+    DashMap<String, TextDocument>,
+    /// Serializes the asynchronous writes of changed documents to disk (see `write_changes_to_file`).
+    tokio::sync::Mutex<()>,
+);
 
 impl Default for Documents {
     fn default() -> Self {
@@ -124,7 +128,7 @@ impl Default for Documents {
 
 impl Documents {
     pub fn new() -> Self {
-        Documents(DashMap::new())
+        Documents(DashMap::new(), tokio::sync::Mutex::new(()))
     }
 
     pub async fn handle_open_file(&self, uri: &Url) {
@@ -142,6 +146,12 @@ impl Documents {
         changes: &[TextDocumentContentChangeEvent],
     ) -> Result<(), LanguageServerError> {
         let src = self.update_text_document(uri, changes)?;
+
+        // The documents are updated synchronously, in the order the changes arrive, but the file
+        // operations below run in the background and several `didChange` handlers can be in flight
+        // at once. Without this lock (tokio's `Mutex` is fair, FIFO) an older text could be written
+        // to the file after a newer one, and the last compilation would read the stale text.
+        let _write_guard = self.1.lock().await;
 
         let mut file =
             File::create(uri.path())
